@@ -209,28 +209,78 @@ func c15Drain() {
 }
 
 type c15Point struct {
-	n int // number of pooled items at the choice
+	n      int  // number of pooled items at the choice
+	timers bool // callbacks armed by an earlier operation (time.AfterFunc) are pending here
+}
+
+type c15Timer struct {
+	t  *time.Timer
+	f  func()
+	op int // position in the history of the operation that armed it
 }
 
 // c15Exec runs a history under a choice prefix; returns the outcome of the
 // last operation, the choice points met and the choices taken.
 func c15Exec(env *c15Env, ops []c15Op, hist []int, prefix []int) (last string, points []c15Point, taken []int, badPrefix bool) {
 	c15Drain()
+	// timer seam: a callback armed by one operation and still pending is delivered — if the explorer
+	// says so — right after a pool Get of a LATER operation (an answer -(a+1) means: answer a, then
+	// deliver). A timer the code has stopped is never delivered.
+	var timers []c15Timer
+	curOp, deliver := 0, false
+	pendingEarlier := func() bool {
+		for _, tm := range timers {
+			if tm.f != nil && tm.op < curOp {
+				return true
+			}
+		}
+		return false
+	}
+	vsync.Hooks.Timer = func(t *time.Timer, d time.Duration, f func()) { timers = append(timers, c15Timer{t: t, f: f, op: curOp}) }
+	vsync.Hooks.OnGet = func(p *vsync.Pool, obj any, fresh bool) {
+		if !deliver {
+			return
+		}
+		deliver = false
+		for i := range timers {
+			if timers[i].f != nil && timers[i].op < curOp {
+				f := timers[i].f
+				timers[i].f = nil
+				if timers[i].t.Stop() {
+					f()
+				}
+			}
+		}
+	}
+	defer func() {
+		vsync.Hooks.Timer, vsync.Hooks.OnGet = nil, nil
+		for _, tm := range timers {
+			if tm.f != nil {
+				tm.t.Stop()
+			}
+		}
+	}()
 	vsync.Hooks.Choose = func(p *vsync.Pool, n int) int {
 		i := len(points)
-		points = append(points, c15Point{n: n})
+		points = append(points, c15Point{n: n, timers: pendingEarlier()})
 		choice := n - 1 // default: LIFO top; with an empty pool: New (n == 0 -> -1 is out of range, i.e. New)
 		if n == 0 {
 			choice = 0
 		}
+		given := choice
 		if i < len(prefix) {
-			choice = prefix[i]
-			if choice < 0 || choice > n {
+			given = prefix[i]
+			choice = given
+			if given < 0 {
+				choice = -given - 1
+				deliver = true
+			}
+			if choice > n {
 				badPrefix = true
 				choice = n
 			}
 		}
-		taken = append(taken, choice)
+		taken = append(taken, given)
 		return choice
 	}
 	var poolProblem string
@@ -245,7 +295,8 @@ func c15Exec(env *c15Env, ops []c15Op, hist []int, prefix []int) (last string, p
 		}
 	}
 	defer func() { vsync.Hooks.Choose, vsync.Hooks.OnPut = nil, nil }()
-	for _, oi := range hist {
+	for k, oi := range hist {
+		curOp = k
 		last = ops[oi].Do(env)
 	}
 	if poolProblem != "" {
@@ -312,6 +363,11 @@ func c15Run(w *run.Worker) {
 			if devs > 0 {
 				kind = "after-pool-answer-deviation"
 			}
+			for _, c := range taken {
+				if c < 0 {
+					kind = "after-a-timer-callback-armed-by-an-earlier-operation"
+				}
+			}
 			w.Violate("C15:outcome-depends-on-history:"+ops[li].Name+":"+kind,
 				fmt.Sprintf("history %v with pool answers %v:\nlast operation gives  %s\nalone in a fresh state %s", names, taken, last, base[li]), c15Case{History: hist, Choices: taken})
 		}
@@ -332,6 +388,11 @@ func c15Run(w *run.Worker) {
 					continue
 				}
 				np := append(append([]int{}, taken[:i]...), alt)
+				explore(hist, np, devs+1)
+			}
+			if points[i].timers && def >= 0 {
+				// one more deviation: the callbacks pending from earlier operations arrive right after this Get
+				np := append(append([]int{}, taken[:i]...), -def-1)
 				explore(hist, np, devs+1)
 			}
 		}
@@ -425,7 +486,7 @@ func init() {
 		ID:    "C15",
 		Level: "model_checking",
 		Rule: "operation histories of length <=3 (thorough <=4) over 30 operations: load-and-run of a grok script with global patterns / under a local pattern of the same name / of another deployment whose entry file has the same text as a loaded one; load of a valid / syntax-error / lexer-error / parser-panic / check-error source, of texts entering every lexer mode, of a text whose last token (no line break after it) raises a constructor fault; v2 runs of scripts that change default parameter values in place, fail inside a loop after assigning variables, read names; run of scripts that succeed, fail inside a loop, exit inside nested blocks, set variables, read the same names unbound, use grok + use(), delete and re-add tags and fields, each on a point taken from the point pool; runs cancelled at poll 1 and 7; " +
-			"instrumented build with a sync.Pool shim: the answer of EVERY pool Get (parser, task, point, metadata) is an explorer choice — default LIFO reuse, then every deviation (any other pooled object, or a fresh one) at every Get, <=2 deviations per history (<=1 for the histories of maximal length); " +
+			"instrumented build with a sync.Pool shim: the answer of EVERY pool Get (parser, task, point, metadata) is an explorer choice — default LIFO reuse, then every deviation (any other pooled object, or a fresh one) at every Get, <=2 deviations per history (<=1 for the histories of maximal length); time.AfterFunc goes through a seam of the same overlay: a callback armed by one operation and not stopped may be delivered right after any pool Get of a later operation (one more kind of deviation; the unchanged tree arms no timer); " +
 			"oracle: the last operation's outcome (load verdict and error text / probe trace, canonical final point, error text, drop flag) equals the outcome of the same operation executed first in a fresh process (baselines are computed in separate subprocesses); loaded scripts are shared by all histories",
 		Assumptions: []string{"the pools and the loaded syntax trees are the only state that survives an operation (package-level variables were listed by reading the sources)"},
 		Run:            c15Run,
